@@ -31,6 +31,8 @@ type ActCase struct {
 	CancelInExec bool `json:"cancel_in_exec,omitempty"` // the context is cancelled inside the (successful) exec: the run still succeeds and still reports a non-empty action
 	ExecVal string `json:"exec_val,omitempty"` // scripted kinds: name of the zoo value the exec phase produces (e.g. a value of type flyt.Action, empty or not)
 	NilEnd  bool   `json:"nil_end,omitempty"`  // flow kinds: the inner flow ends because its last node's action is connected to nil (not because it is unconnected)
+	PostByOption string `json:"post_by_option,omitempty"` // batch-post-by-option kind: the post function is handed to NewBatchNode as a constructor option ("result" / "any" form)
+	SelfLoop bool `json:"self_loop,omitempty"` // routed: the connection on the expected action leads back to the node itself (its second visit returns "leave", which leads to the probe)
 }
 
 // zeroBaseNode embeds a BaseNode that did not come from NewBaseNode (zero value, by value / by pointer) and
@@ -85,6 +87,40 @@ func runActCase(cs *ActCase) (fs []finding) {
 			}
 		}
 		node = newBatchRun(bc).build()
+	case "batch-post-by-option":
+		// whatever the library does with a post function given as a constructor option (today: the batch's own default
+		// post stays in charge), a successful run reports a non-empty action
+		postA := func(ctx context.Context, s *flyt.SharedStore, p, e any) (flyt.Action, error) { return flyt.Action(cs.Post), nil }
+		postR := func(ctx context.Context, s *flyt.SharedStore, p, e flyt.Result) (flyt.Action, error) {
+			return flyt.Action(cs.Post), nil
+		}
+		prep := func(ctx context.Context, s *flyt.SharedStore) (any, error) {
+			items := make([]any, cs.N)
+			for i := range items {
+				items[i] = i
+			}
+			return items, nil
+		}
+		exec := func(ctx context.Context, v any) (any, error) { return v, nil }
+		opts := []any{flyt.WithPrepFuncAny(prep), flyt.WithExecFuncAny(exec), flyt.WithBatchConcurrency(cs.C)}
+		if cs.PostByOption == "result" {
+			opts = append(opts, flyt.WithPostFunc(postR))
+		} else {
+			opts = append(opts, flyt.WithPostFuncAny(postA))
+		}
+		bn := flyt.NewBatchNode(opts...)
+		node = bn
+		if cs.N%2 == 1 {
+			node = bn.BatchNode
+		}
+		// the action is the option-post's or the default post's: both are acceptable as long as it is not empty
+		act, err := flyt.Run(context.Background(), node, flyt.NewSharedStore())
+		if err != nil {
+			add("run-failed:"+cs.Kind, "run failed: %v", err)
+		} else if act == "" {
+			add("empty-action:"+cs.Kind+":"+cs.PostByOption, "run of a batch node whose post function was given as a constructor option (%s form, returning %q) succeeded with the empty action — n=%d c=%d", cs.PostByOption, cs.Post, cs.N, cs.C)
+		}
+		return
 	case "zero-basenode-by-value":
 		node = &zeroBaseNode{post: cs.Post}
 	case "zero-basenode-by-pointer":
@@ -112,6 +148,9 @@ func runActCase(cs *ActCase) (fs []finding) {
 			}
 		}
 		ns := scen.NodeSpec{Kind: kind, N: 1, HasFB: true, Visits: []scen.Visit{{FirstOK: 1, Post: cs.Post}}}
+		if cs.SelfLoop {
+			ns.Visits = append(ns.Visits, scen.Visit{FirstOK: 1, Post: "leave"})
+		}
 		if cs.Earlier != "" {
 			ns.Visits = []scen.Visit{{FirstOK: 1, Post: cs.Earlier}, {FirstOK: 1, Post: cs.Post}}
 		}
@@ -173,7 +212,12 @@ func runActCase(cs *ActCase) (fs []finding) {
 	f.Connect(node, "", dEmpty)
 	for _, a := range []string{"default", "custom", "done", " ", "\t\n", "earlier-custom"} {
 		if a == want {
-			f.Connect(node, flyt.Action(a), probe)
+			if cs.SelfLoop {
+				f.Connect(node, flyt.Action(a), node) // back to the node itself; its second visit leaves through "leave"
+				f.Connect(node, "leave", probe)
+			} else {
+				f.Connect(node, flyt.Action(a), probe)
+			}
 		} else {
 			f.Connect(node, flyt.Action(a), dOther)
 		}
@@ -224,12 +268,24 @@ func runC18(c *Cfg) {
 						cases = append(cases, &ActCase{Family: "grid-action-typed-exec-value", Kind: scen.KindNames[k], Post: post, Routed: routed, FailAt: -1, ExecPath: ep, ExecVal: ev})
 					}
 				}
+				if routed {
+					cases = append(cases, &ActCase{Family: "grid-self-loop-on-the-reported-action", Kind: scen.KindNames[k], Post: post, Routed: true, FailAt: -1, SelfLoop: true})
+				}
 				// the node object has been used before and returned a custom action then
 				cases = append(cases, &ActCase{Family: "grid-reused-node", Kind: scen.KindNames[k], Post: post, Routed: routed, FailAt: -1, Earlier: "earlier-custom"})
 			}
 			cases = append(cases, &ActCase{Family: "grid", Kind: "zero-basenode-by-value", Post: post, Routed: routed, FailAt: -1}, &ActCase{Family: "grid", Kind: "zero-basenode-by-pointer", Post: post, Routed: routed, FailAt: -1})
 			cases = append(cases, &ActCase{Family: "grid", Kind: "flow", Post: post, Routed: routed, FailAt: -1}, &ActCase{Family: "grid", Kind: "flow-in-flow", Post: post, Routed: routed, FailAt: -1})
 			cases = append(cases, &ActCase{Family: "grid-flow-ending-on-nil-connection", Kind: "flow", Post: post, Routed: routed, FailAt: -1, NilEnd: true}, &ActCase{Family: "grid-flow-ending-on-nil-connection", Kind: "flow-in-flow", Post: post, Routed: routed, FailAt: -1, NilEnd: true})
+			if !routed {
+				for n := 0; n <= 3; n++ {
+					for cc := 0; cc <= 2; cc++ {
+						for _, form := range []string{"result", "any"} {
+							cases = append(cases, &ActCase{Family: "grid-batch-post-by-option", Kind: "batch-post-by-option", Post: post, N: n, C: cc, FailAt: -1, PostByOption: form})
+						}
+					}
+				}
+			}
 			for n := 0; n <= 3; n++ {
 				for cc := 0; cc <= 2; cc++ {
 					for _, stop := range []bool{false, true} {
